@@ -227,6 +227,12 @@ func planSpecs() []planSpec {
 		{"sort_twopass", "sort 100 lat, id | fillnull value=0", cmpOrdered, nil, false, nil},
 		{"sort_twopass", "where v>=0 | sort 5 -lat, id | fillnull value=0", cmpOrdered, nil, false, nil},
 		{"sort_twopass", "eval w=lat*2 | sort 4 w, id | bin w", cmpOrdered, nil, false, nil},
+		// batches whose column sets differ (column b absent from some blocks): sort merges such
+		// batches, eval reads the column
+		{"eval_missing_column", "eval w=b | fields id, w", cmpOrdered, nil, true, nil},
+		{"eval_missing_column", "eval w=b | stats count by w", cmpMultiset, nil, true, nil},
+		{"sort_missing_column", "sort lat, id", cmpOrdered, nil, true, nil},
+		{"sort_missing_column", "eval w=v*2 | sort -lat, id | head 7", cmpOrdered, nil, true, nil},
 		// order-sensitive command first: one chain
 		{"ordered", "dedup a | stats count by a", cmpMultiset, nil, false, nil},
 		{"ordered", "head 5 | sort v, id", cmpOrdered, nil, false, nil},
@@ -282,7 +288,21 @@ func coqBool(b bool) string {
 	return "f"
 }
 
-func runPlannedStream(cfg vhlib.Config, sum *vhlib.Summary, rng *vhlib.Rng) {
+// families whose defect (before its fix) kills the process inside a fetch goroutine: own child
+var crashFamilies = map[string]bool{"sort_missing_column": true, "eval_missing_column": true}
+
+var currentCasePath string
+
+// the case that is about to run, for the parent to report if this process dies
+func noteCurrent(c map[string]interface{}) {
+	if currentCasePath != "" {
+		b, _ := json.Marshal(c)
+		_ = os.WriteFile(currentCasePath, b, 0o644)
+	}
+}
+
+func runPlannedStream(cfg vhlib.Config, sum *vhlib.Summary, rng *vhlib.Rng, onlyFamily string) {
+	onlyCrashFamilies := onlyFamily != ""
 	nTables := 5
 	if cfg.Thorough() {
 		nTables = 30
@@ -299,14 +319,21 @@ func runPlannedStream(cfg vhlib.Config, sum *vhlib.Summary, rng *vhlib.Rng) {
 		}
 		tables = append(tables, genClustered(tr, n))
 	}
-	cf := newCaseFile("cases_planned")
+	cfName := "cases_planned"
+	if onlyCrashFamilies {
+		cfName = "cases_planned_" + onlyFamily
+	}
+	cf := newCaseFile(cfName)
 	shard := 0
 	for _, s := range planSpecs() {
+		if crashFamilies[s.Family] != onlyCrashFamilies || (onlyCrashFamilies && s.Family != onlyFamily) {
+			continue
+		}
 		for ti, t := range tables {
 			if cf.size() > 300000 {
 				cf.flush(sum, cfg.Out)
 				shard++
-				cf = newCaseFile(fmt.Sprintf("cases_planned_%d", shard))
+				cf = newCaseFile(fmt.Sprintf("%s_%d", cfName, shard))
 			}
 			n := len(t.Rows)
 			in := t.crows()
@@ -334,6 +361,7 @@ func runPlannedStream(cfg vhlib.Config, sum *vhlib.Summary, rng *vhlib.Rng) {
 			agree := true
 			for _, sizes := range layouts {
 				for _, procs := range []int{1, 4} {
+					noteCurrent(map[string]interface{}{"family": s.Family, "spl": s.SPL, "table_rows": rowsStr(in), "block_sizes": sizes, "gomaxprocs": procs, "sparse_columns": s.Sparse})
 					pr := runPlanned(s.SPL, t, sizes, procs, s.Sparse)
 					sum.Eval(fmt.Sprintf("planned|%s|%d|%v|%d", s.SPL, ti, sizes, procs), pr.Chains > 1)
 					sum.Count(fmt.Sprintf("planned_chains/%d", pr.Chains))
@@ -397,7 +425,9 @@ func runPlannedStream(cfg vhlib.Config, sum *vhlib.Summary, rng *vhlib.Rng) {
 		}
 	}
 	cf.flush(sum, cfg.Out)
-	runPlannerCases(cfg, sum)
+	if !onlyCrashFamilies {
+		runPlannerCases(cfg, sum)
+	}
 }
 
 // Several ORDERED upstream streams merged under a row limit by the merger DataProcessor
@@ -547,10 +577,15 @@ func childMain(kind string) {
 	config.SetNewQueryPipelineEnabled(true)
 	sum := vhlib.NewSummary("")
 	rng := vhlib.NewRng(cfg.Seed*104729 + 17)
+	currentCasePath = filepath.Join(cfg.Out, "current.json")
 	switch kind {
 	case "planned":
-		runPlannedStream(cfg, sum, rng)
+		runPlannedStream(cfg, sum, rng, "")
 		runMergerStream(cfg, sum, rng.Fork())
+	default:
+		if strings.HasPrefix(kind, "missingcol=") {
+			runPlannedStream(cfg, sum, rng, strings.TrimPrefix(kind, "missingcol="))
+		}
 	case "race":
 		runRaceStream(cfg, sum, rng)
 	}
@@ -559,7 +594,7 @@ func childMain(kind string) {
 
 func runChild(kind string, cfg vhlib.Config, sum *vhlib.Summary, attempts int) {
 	for a := 0; a < attempts; a++ {
-		dir := filepath.Join(cfg.Out, fmt.Sprintf("%s_%d", kind, a))
+		dir := filepath.Join(cfg.Out, fmt.Sprintf("%s_%d", strings.ReplaceAll(kind, "=", "_"), a))
 		_ = os.MkdirAll(dir, 0o755)
 		ctx, cancel := context.WithTimeout(context.Background(), 30*time.Minute)
 		cmd := exec.CommandContext(ctx, os.Args[0], kind, "--tier", cfg.Tier, "--seed", strconv.FormatUint(cfg.Seed, 10), "--out", dir)
@@ -599,10 +634,21 @@ func runChild(kind string, cfg vhlib.Config, sum *vhlib.Summary, attempts int) {
 		if len(tail) > 1500 {
 			tail = tail[:1500]
 		}
+		var cur map[string]interface{}
+		if b, rerr := os.ReadFile(filepath.Join(dir, "current.json")); rerr == nil {
+			_ = json.Unmarshal(b, &cur)
+		}
+		if fam, _ := cur["family"].(string); crashFamilies[fam] && strings.Contains(string(out), "pkg/segment/query/") {
+			cur["panic"] = tail
+			sum.Fail(fam+"_stream_split_dependent",
+				fmt.Sprintf("%q over batches of which only some have column b (blocks %v, GOMAXPROCS %v): the process died: %s; the same rows in one batch are answered",
+					cur["spl"], cur["block_sizes"], cur["gomaxprocs"], strings.SplitN(tail, "\n\n", 2)[0]), cur)
+			return
+		}
 		if strings.Contains(tail, "pkg/segment/query/processor") && strings.Contains(string(out), "fetchFromAnyStream") {
 			sum.Fail("parallel_chains_shared_options_race",
 				fmt.Sprintf("the process running the %s stream (parallel chains, GOMAXPROCS 4) died in a goroutine of fetchFromAnyStream: %s", kind, strings.SplitN(tail, "\n\n", 2)[0]),
-				map[string]interface{}{"stream": kind, "attempt": a, "panic": tail})
+				map[string]interface{}{"stream": kind, "attempt": a, "panic": tail, "case": cur})
 			continue
 		}
 		sum.HarnessError(fmt.Sprintf("%s child failed: %v: %s", kind, err, tail))
@@ -617,7 +663,7 @@ func runChild(kind string, cfg vhlib.Config, sum *vhlib.Summary, attempts int) {
 // the option structs (lazy caches in *NumericExpr.GetFields, GroupByRequest set up by every
 // statsProcessor) and run concurrently; now and then a clone aggregates with half-initialised options
 func runRaceStream(cfg vhlib.Config, sum *vhlib.Summary, r *vhlib.Rng) {
-	iters := 800
+	iters := 1200
 	if cfg.Thorough() {
 		iters = 6000
 	}
@@ -710,6 +756,13 @@ func runPlannerCases(cfg vhlib.Config, sum *vhlib.Summary) {
 			ok := idx < len(ch) && ch[idx].kind == "A"
 			for i := 0; ok && i < idx; i++ {
 				ok = ch[i].kind == "R"
+			}
+			for i := idx + 1; ok && i < len(ch); i++ {
+				if ch[i].kind == "T" {
+					sum.Fail("planner_splits_before_later_two_pass", fmt.Sprintf("CanParallelSearch(%q) = true,%d although the two-pass command %d behind the merge point will rewind the merged chains", spl, idx, i),
+						map[string]interface{}{"spl": spl, "kinds": kinds, "decision": []interface{}{can, idx}})
+					break
+				}
 			}
 			if !ok {
 				sum.Fail("planner_splits_non_rowwise_prefix", fmt.Sprintf("CanParallelSearch(%q) = true,%d: the chain would be cloned per CPU in front of command %d although a command before it needs the whole or the ordered input", spl, idx, idx),
